@@ -112,7 +112,7 @@ def ref_solve(ctx, desc_e, prune, fine=False):
     return ctx.ref.call("solve", {"desc": desc_e, "prune": bool(prune), "fine": bool(fine), "sweep_cap": cap}, key=key)
 
 
-def pick_desc(rng, ctx, allow_bad=True):
+def pick_desc(rng, ctx, allow_bad=True, big_ok=False):
     """One description from the swarm of pools; returns (tag, encoded desc)."""
     from .. import pools
     r = rng.random()
@@ -122,7 +122,7 @@ def pick_desc(rng, ctx, allow_bad=True):
             name, e = pp[rng.randrange(len(pp))]
             return "paper:" + name, e
     if r < 0.35:
-        prm = pools.gen_params(rng, "tiny")
+        prm = pools.gen_params(rng, "small" if (big_ok and rng.random() < 0.3) else "tiny")
         bg = board_games(ctx, prm)
         if bg:
             k = rng.choice(sorted(bg))
@@ -136,3 +136,14 @@ def pick_desc(rng, ctx, allow_bad=True):
     if r < 0.58:
         return "tiny", enc(pools.tiny_game(rng))
     return "stopping", enc(pools.stopping_game(rng))
+
+
+def drop_unused_pool(spec):
+    """Candidate without the pool entries no op refers to (indices remapped)."""
+    used = sorted({g for op in spec.get("ops", []) for g in op.get("games", []) if isinstance(g, int)})
+    pool = spec.get("pool", [])
+    if len(used) == len(pool) or not pool:
+        return
+    mp = {g: i for i, g in enumerate(used)}
+    ops_ = [dict(op, games=[mp[g] for g in op["games"]]) if "games" in op else op for op in spec["ops"]]
+    yield dict(spec, pool=[pool[g] for g in used if g < len(pool)], ops=ops_)
